@@ -107,6 +107,19 @@ def build_schedule(req):
 def read_total(evs):
     return sum(1 for e in evs if e[1] == 'c18.caller.read')
 
+MAX_STREAM = 250
+
+def reduced(req):
+    """a listener that was offered more notifications than a Coq term should hold (something redelivers without end):
+    keep the first MAX_STREAM notifications and judge only the clauses that are sound on a prefix (every taken notification acked, hook count)"""
+    stream = (req.get('stream') or [])[:MAX_STREAM]
+    ids = {n['id'] for n in stream}
+    r = dict(req, stream=stream, consumed=min(req['consumed'], MAX_STREAM), acked=[a for a in (req.get('acked') or []) if a in ids][:MAX_STREAM],
+             pre=[], got=[], rest=[], events=[], ctx=False)
+    pays = {n['pay'] for n in stream}
+    r['dec'] = [d for d in (req.get('dec') or []) if d[0] in pays]
+    return r
+
 def listen_case_term(sc, req, fixed=True):
     sched, problems = build_schedule(req)
     replies = []
@@ -125,6 +138,8 @@ def listen_case_term(sc, req, fixed=True):
     return term, problems
 
 def describe_req(sc, req):
+    if len(req.get('stream') or []) > MAX_STREAM:
+        req = dict(req, events=[])
     sched, _ = build_schedule(req)
     own = [n for n in (req.get('stream') or []) if n['op'] == req['op']]
     return dict(scenario=sc['index'], config=dict(ack_errors=sc['ack_errors'], has_errh=sc['has_errh'], has_hook=sc['has_hook'], with_result=sc['with_result'],
@@ -196,17 +211,21 @@ def run_once(ctx, res, seed, n, reqs, tag):
             res.count('own_notifications=%d' % min(len(own), 4)); res.count('foreign_notifications=%s' % ('0' if not foreign else '1-3' if foreign < 4 else '4+'))
             for r in (req.get('got') or []):
                 res.count('reply_read=' + kind_name(r))
-            term, problems = listen_case_term(sc, req)
+            big = len(req.get('stream') or []) > MAX_STREAM
+            if big:
+                res.count('oversized_notification_streams')
+            term, problems = listen_case_term(sc, reduced(req) if big else req)
             if term is None:
                 res.violations.append(dict(signature='C18/unclassifiable-reply', what=problems[0], case=describe_req(sc, req)))
                 continue
             for pr in problems:
                 res.mismatches.append(dict(kind='stamp mapping: ' + pr, case=describe_req(sc, req)))
-            lcases.append((sc, req, term))
+            lcases.append((sc, req, term, big))
             if len(req.get('stream') or []) > 1 or len(req.get('got') or []) > 1:
                 res.nontrivial.add(('listen', len(own), foreign > 0, tuple(r['kind'] for r in (req.get('got') or [])), tuple(r['kind'] for r in (req.get('rest') or [])),
                                     req['api'], req['end'], req['drain'], sc['has_hook'], bool(sc['timeout_ms'])))
-            for d in req.get('deliveries') or []:
+            if len(req.get('deliveries') or []) > 30: res.count('requests_with_more_than_30_deliveries(only the first 30 judged)')
+            for d in (req.get('deliveries') or [])[:30]:
                 res.evaluations += 1
                 t, bad = delivery_term(sc, d)
                 for b in bad:
@@ -220,7 +239,7 @@ def run_once(ctx, res, seed, n, reqs, tag):
                        [('R_mis', 'c18_listen_mismatches cases'), ('R_vio', 'c18_listen_violations cases')])
         vio = dict(r['R_vio'])
         for i, code in vio.items():
-            sc, req, _ = chunk[i]
+            sc, req, _, big = chunk[i]
             if code & 2 and not code & 1:
                 res.violations.append(dict(signature=SIG_PARKED if (req['parked'] or not req['done']) else 'C18/listener-end-state',
                                            what=('the context of the request ended but its listener never finished: reply channel not closed, OnListenForReplyFinished not run'
@@ -230,7 +249,11 @@ def run_once(ctx, res, seed, n, reqs, tag):
                 res.violations.append(dict(signature='C18/listener-safety', what='listener observation rejected by the acceptor safe_ok (only own replies, in arrival order, with the notification\'s content, '
                                            'nothing lost before the context ended, at most one final reply and last, every taken notification acked, hook at most once)', case=describe_req(sc, req)))
         for i, code in r['R_mis']:
-            sc, req, _ = chunk[i]
+            sc, req, _, big = chunk[i]
+            if big:
+                res.mismatches.append(dict(kind='a listener was offered %d notifications (endless redelivery on the reply topic?); only the ack clause was judged' % len(req.get('stream') or []),
+                                           explained_by_violation=i in vio, case=describe_req(sc, dict(req, events=[]))))
+                continue
             what = ('the model refuses label #%d of the replayed schedule' % (code - 1000)) if code >= 1000 else \
                    'end state differs: ' + ', '.join(n for b, n in [(1, 'replies read'), (2, 'replies left in the channel'), (4, 'notifications taken/acked'), (8, 'channel closed'), (16, 'hook calls'), (32, 'listener finished'), (64, 'implementation parked where the model can move')] if code & b)
             res.mismatches.append(dict(kind='Corr.C18.c18_listen_code (ReqReply/Listen.v vs ListenForNotifications): ' + what, explained_by_violation=i in vio, case=describe_req(sc, req)))
